@@ -290,7 +290,11 @@ func runC07(r *core.Run) {
 		case 3, 4: // attestation in some container
 			base := attestations[r.Intn(len(attestations), "container")]
 			q, o := corruptN(r, base, is.Bytes, "attestation")
-			if r.Chance(25, "attestation-field-level?") {
+			if r.Chance(6, "blank-quote?") {
+				// what a text channel delivers when nothing was there: line breaks, blanks, bare padding
+				blanks := []string{"\n", "\r\n", " ", "\n\n\n", "\t\n ", "=", "==", "0x", "\x00"}
+				q, o = []byte(blanks[r.Intn(len(blanks), "blank-quote")]), "field:blank-quote"
+			} else if r.Chance(25, "attestation-field-level?") {
 				// a well-formed attestation message whose certificate-chain extras are keyed by whatever
 				// the sender liked: other spellings of the GCE GUID, other GUIDs, strings that are no GUID
 				at := SnpAttestation(meas, nil)
